@@ -37,6 +37,7 @@ def _worker(case):
     except Exception as e:  # noqa
         out["error"] = "EXC:%s:%s" % (type(e).__name__, str(e)[:100])
         return out
+    common.NARY["on"] = bool(case.get("nary"))      # chains of one connective handed over as ONE n-ary node
     for op in case["ops"]:
         try:
             k = op[0]
@@ -59,6 +60,7 @@ def _worker(case):
             out["res"].append(r)
         except Exception as e:  # noqa
             out["res"].append("EXC:%s:%s" % (type(e).__name__, str(e)[:100]))
+    common.NARY["on"] = False
     return out
 
 
@@ -108,6 +110,16 @@ def run(tier, seed, broken_proof=False):
                 k = rng.randrange(1, n)
                 opsl.append(("M", sorted(rng.sample(range(n), k))))
         opsl.append(("C", gen_formula(rng, n, 1, 0.05)))
+        # chains of three or more disjuncts / conjuncts (as nested binary nodes, or - for a quarter of the cases - one n-ary node)
+        if rng.random() < 0.25:
+            c["nary"] = True
+        for conn in ("|", "&"):
+            ls = [gen_lit(rng, n) for _ in range(rng.randrange(3, 5))]
+            ch = ls[0]
+            for l in ls[1:]:
+                ch = (conn, ch, l)
+            opsl.append(("A", ch, gen_formula(rng, n, 1, 0.2)))
+            opsl.append(("F", ch))
         # twins: one deep context around different cores, asked of the same object one after the other
         # (anything remembered per object between calls must be keyed by the whole formula)
         depth = rng.randrange(3, 8)
